@@ -4,7 +4,7 @@ CONSTANTS
   Pinned = FALSE
   Protocols <- MC_Protocols
   Ranges <- MC_RangesSmall
-  Flags <- MC_FlagsQuick
+  Flags <- MC_FlagsAll
   MaxCalls = 1
   MaxMemo = 4
 INVARIANTS Inv_C01 Inv_C02 Inv_C03 Inv_C05 Inv_C06 Inv_C08 Inv_C10 Inv_C11 Inv_C17
